@@ -15,4 +15,8 @@ cd "$V"
 set +e
 VERIF_REPO="$D" ./check "$PROP" --tier "$TIER" 2>&1 | grep -v "conda" | tail -6
 RC=${PIPESTATUS[0]}
+# (for tools/seed_matrix.py and tools/build_corpus.py) keep the replay files of this run
+if [ -n "$SEED_REPLAY_DIR" ] && ls "$V"/replays/"$PROP"/*.json >/dev/null 2>&1; then
+  rm -rf "$SEED_REPLAY_DIR"; mkdir -p "$SEED_REPLAY_DIR"; cp "$V"/replays/"$PROP"/*.json "$SEED_REPLAY_DIR"/
+fi
 exit $RC
